@@ -62,6 +62,9 @@ def decorate(spec):
     in_comp = {k for cs in spec.get("components", []) for k in cs["tasks"]}
     if in_comp and not any(tasks[k].get("need_fac") or tasks[k].get("auto") for k in in_comp if k < len(tasks)) and rq.random() < 0.5:
         spec["comp_wiring"] = "ctor"
+    # the workflow grown task by task (append_child_task) instead of BaseWorkflow([...])
+    if rq.random() < 0.15:
+        spec["wf_build"] = "incremental"
     # workplace links declared on the input side only (BaseWorkplace(input_workplace_list=[...]))
     if rq.random() < 0.15:
         spec["wp_wiring"] = "ctor"
